@@ -13,6 +13,19 @@ CHECKS = {
              "covered by the bit-exact sweep and oracle only (partial).", ref="5/C14",
              technique="Coq proof (induction over the chunk recurrence) + source-to-Gallina translation + differential"),
 }
+CHECKS['C01'] = dict(text="Theorems over the Core model (all interleavings of main / results handler / restart handler / workers, "
+  "guards regenerated from the source): a completed call delivers a permutation of the inputs, independent of every "
+  "configuration parameter and schedule; chunks cover exactly the input prefix (C14); sorting index-tagged results gives "
+  "input order. Tie: generated guards + Spec lemmas, every real worker instance's log replayed through Core.step, every "
+  "add_task through the generated selection kernel, and an end-to-end differential against the sequential reference "
+  "over structured scenarios (4 start methods, all element kinds, generators, ndarrays). Partial: the imap reorder buffer "
+  "and the argument-unpacking convention are covered by the end-to-end runs only; transport assumed value preserving.",
+  ref="5/C01", technique="Coq proof (conservation invariant over all schedules) + trace conformance + differential")
+CHECKS['C02'] = dict(text="Theorems over the Core model for all schedules and configurations: at every moment the execution log is a "
+  "sub-multiset of the inputs (never more than once, also in calls cut short), and on completion it is a permutation of "
+  "the inputs (exactly once), across lifespan restarts. Tie as for C01 plus the user function's own append-only "
+  "invocation log compared as a multiset with the inputs on every run.", ref="5/C02",
+  technique="Coq proof (token conservation invariant) + trace conformance + invocation-log oracle")
 PENDING = {}
 props = [json.loads(l) for l in open(os.path.join(V, 'properties.jsonl'))]
 m = dict(version=1,
